@@ -130,4 +130,34 @@ static inline uint8_t vp_le_byte(uint64_t x, unsigned k)
     return (uint8_t)(x >> (8u * k));
 }
 
+/* ------------------------------------------------------------------------------------
+ * Memory images of scalar objects (C13): the bytes an object occupies in memory, in
+ * address order, compared with the big-/little-endian byte sequence of a value.
+ * W = 2, 4 or 8; the object is passed by value as uint64_t-wide storage of its own type.
+ * ---------------------------------------------------------------------------------- */
+static inline int vp_img16_is_be(uint16_t obj, uint16_t val)
+{ const uint8_t *p = (const uint8_t *)&obj; return p[0] == (uint8_t)(val >> 8) && p[1] == (uint8_t)val; }
+static inline int vp_img16_is_le(uint16_t obj, uint16_t val)
+{ const uint8_t *p = (const uint8_t *)&obj; return p[1] == (uint8_t)(val >> 8) && p[0] == (uint8_t)val; }
+static inline int vp_img32_is_be(uint32_t obj, uint32_t val)
+{ const uint8_t *p = (const uint8_t *)&obj;
+  return p[0] == (uint8_t)(val >> 24) && p[1] == (uint8_t)(val >> 16) && p[2] == (uint8_t)(val >> 8) && p[3] == (uint8_t)val; }
+static inline int vp_img32_is_le(uint32_t obj, uint32_t val)
+{ const uint8_t *p = (const uint8_t *)&obj;
+  return p[3] == (uint8_t)(val >> 24) && p[2] == (uint8_t)(val >> 16) && p[1] == (uint8_t)(val >> 8) && p[0] == (uint8_t)val; }
+static inline int vp_img64_is_be(uint64_t obj, uint64_t val)
+{ const uint8_t *p = (const uint8_t *)&obj;
+  return p[0] == (uint8_t)(val >> 56) && p[1] == (uint8_t)(val >> 48) && p[2] == (uint8_t)(val >> 40) && p[3] == (uint8_t)(val >> 32) &&
+         p[4] == (uint8_t)(val >> 24) && p[5] == (uint8_t)(val >> 16) && p[6] == (uint8_t)(val >> 8) && p[7] == (uint8_t)val; }
+static inline int vp_img64_is_le(uint64_t obj, uint64_t val)
+{ const uint8_t *p = (const uint8_t *)&obj;
+  return p[7] == (uint8_t)(val >> 56) && p[6] == (uint8_t)(val >> 48) && p[5] == (uint8_t)(val >> 40) && p[4] == (uint8_t)(val >> 32) &&
+         p[3] == (uint8_t)(val >> 24) && p[2] == (uint8_t)(val >> 16) && p[1] == (uint8_t)(val >> 8) && p[0] == (uint8_t)val; }
+/* byte reversal, defined bytewise */
+static inline uint16_t vp_rev16(uint16_t x) { return (uint16_t)((x << 8) | (x >> 8)); }
+static inline uint32_t vp_rev32(uint32_t x)
+{ return ((uint32_t)vp_rev16((uint16_t)x) << 16) | vp_rev16((uint16_t)(x >> 16)); }
+static inline uint64_t vp_rev64(uint64_t x)
+{ return ((uint64_t)vp_rev32((uint32_t)x) << 32) | vp_rev32((uint32_t)(x >> 32)); }
+
 #endif /* VP_SPEC_H */
